@@ -302,6 +302,9 @@ func (d Duration) Binary(op syntax.Token, y starlark.Value, side starlark.Side) 
 			if i == 0 {
 				return nil, fmt.Errorf("%s division by zero", d.Type())
 			}
+			if i == -1 && d == math.MinInt64 {
+				return nil, fmt.Errorf("duration out of range: %s / %d", d, i)
+			}
 			return d / Duration(i), nil
 		case starlark.Float:
 			if side == starlark.Right {
